@@ -10,7 +10,8 @@ from harness.impl.reader import run_reader
 from harness.props.c02 import coq_piece, coq_impl
 
 IMPORTS = "From Ford Require Import Base.Str Lex.Quote Lex.Reader Lex.ReaderSpec Lex.Fixed Corr.C02 Corr.C14."
-THEOREMS = []
+THEOREMS = ["C14_fixed_as_free", "C14_fixed_statements", "C14_partial", "C14_refuted_inline_comment",
+            "C14_refuted_blank6", "C14_refuted_literal_split"]
 REGIONS = {"inline_comment_continued": 1, "blank6_before_continuation": 2}
 KEYS = {1: "inline-comment-on-continued-line", 2: "blank-line-of-6-columns-before-continuation",
         3: "inline-comment-on-continued-line"}
